@@ -35,6 +35,11 @@ Proof. reflexivity. Qed.
 Lemma close_clears_per_host_true : close_clears_per_host = true.
 Proof. reflexivity. Qed.
 
+Lemma requeue_hands_on_true : requeue_hands_on = true.
+Proof. reflexivity. Qed.
+Lemma fast_path_true a : connect_fast_path a = true -> (0 < a)%Z.
+Proof. unfold connect_fast_path; lia. Qed.
+
 Lemma must_wait_false a : connect_must_wait a = false -> (0 < a)%Z.
 Proof. unfold connect_must_wait; lia. Qed.
 Lemma must_wait_true a : connect_must_wait a = true -> (a < 1)%Z.
@@ -81,6 +86,16 @@ Proof.
   destruct (release_skips_key (avail c s k)); [apply IH|].
   destruct (wake_key k (waiters s)) as [w' [t|]]; simpl; [tauto|].
   specialize (IH (with_waiters s w')). simpl in IH. exact IH.
+Qed.
+
+Lemma hand_on_frame c s order s2 :
+  hand_on c s order = Some s2 ->
+  acquired s2 = acquired s /\ hostacq s2 = hostacq s /\ idle s2 = idle s /\
+  closed s2 = closed s /\ nconn s2 = nconn s /\ closedc s2 = closedc s.
+Proof.
+  unfold hand_on, release_waiter. destruct requeue_hands_on.
+  - destruct (covers order (waiters s)); [|discriminate]. intros [= <-]. apply release_loop_frame.
+  - intros [= <-]. repeat split.
 Qed.
 
 (* ---- the limit invariant ------------------------------------------------------------------- *)
@@ -166,18 +181,32 @@ Proof.
   - intros Hl k. rewrite (count_host_map k (replace_slot a b)). apply HH. exact Hl.
 Qed.
 
-Lemma step_within c s e s' :
-  within c s -> good_step c s e -> step c s e = Some s' -> within c s'.
+Lemma start_tail_within c s t k s' : within c s -> start_tail c s t k = Some s' -> within c s'.
 Proof.
-  intros W G H. destruct e as [t k|t order|t|t|t order|t cl order|]; simpl in H.
+  intros W H. unfold start_tail in H. destruct (connect_must_wait (avail c s k)) eqn:Ew.
+  - destruct (refuse_wait s); injection H as <-; (eapply within_same; [| |exact W]; reflexivity).
+  - injection H as <-. apply proceed_within; [exact W|]. apply must_wait_false. exact Ew.
+Qed.
+
+Lemma requeue_within c s1 t k order s' : within c s1 -> requeue c s1 t k order = Some s' -> within c s'.
+Proof.
+  intros W H. unfold requeue in H. destruct (hand_on c s1 order) as [s2|] eqn:Eh; [|discriminate].
+  destruct (hand_on_frame _ _ _ _ Eh) as (A & B & _).
+  assert (W2 : within c s2) by (eapply within_same; eauto).
+  destruct (refuse_wait s2); injection H as <-; (eapply within_same; [| |exact W2]; reflexivity).
+Qed.
+
+Lemma step_within c s e s' :
+  within c s -> step c s e = Some s' -> within c s'.
+Proof.
+  intros W H. destruct e as [t k|t order|t|t|t order|t cl order|]; cbn [step] in H.
   - (* EStart *)
     destruct (get_pc (pcs s) t); try discriminate.
-    destruct (take_idle k (idle s)) as [x|] eqn:Ei.
-    + injection H as <-. simpl in G. destruct G as [G|G]; [congruence|].
-      apply proceed_within; assumption.
-    + destruct (connect_must_wait (avail c s k)) eqn:Ew.
-      * destruct (refuse_wait s); injection H as <-; (eapply within_same; [| |exact W]; reflexivity).
-      * injection H as <-. apply proceed_within; [exact W|]. apply must_wait_false. exact Ew.
+    destruct (connect_fast_path (avail c s k)) eqn:Ef.
+    + destruct (take_idle k (idle s)) as [x|] eqn:Ei.
+      * injection H as <-. apply proceed_within; [exact W|apply fast_path_true; exact Ef].
+      * eapply start_tail_within; eauto.
+    + eapply start_tail_within; eauto.
   - (* EResume *)
     destruct (get_pc (pcs s) t) as [| k f | | | | |]; try discriminate.
     destruct f; try discriminate.
@@ -185,7 +214,7 @@ Proof.
       assert (W1 : within c s1) by (eapply within_same; [| |exact W]; reflexivity).
       destruct (wait_slot_found (avail c s1 k)) eqn:Ef.
       * injection H as <-. apply proceed_within; [exact W1|]. apply slot_found_true. exact Ef.
-      * destruct (refuse_wait s1); injection H as <-; (eapply within_same; [| |exact W1]; reflexivity).
+      * eapply requeue_within; eauto.
     + injection H as <-. eapply within_same; [| |exact W]; reflexivity.
     + set (s1 := with_woken s (filter (fun x => negb (x =? t)) (woken s))) in *.
       assert (W1 : within c s1) by (eapply within_same; [| |exact W]; reflexivity).
@@ -223,76 +252,18 @@ Lemma within_init c : within c init.
 Proof. split; simpl; intros; unfold count_host; simpl; lia. Qed.
 
 Lemma run_within c : forall tr s s',
-  within c s -> all_steps (good_step c) c s tr -> run c s tr = Some s' -> within c s'.
+  within c s -> run c s tr = Some s' -> within c s'.
 Proof.
-  induction tr as [|e r IH]; intros s s' W A H; simpl in *.
+  induction tr as [|e r IH]; intros s s' W H; simpl in *.
   - injection H as <-. exact W.
-  - destruct A as [G A]. destruct (step c s e) as [s1|] eqn:Es; [|discriminate].
-    eapply IH; [|exact A|exact H]. eapply step_within; eauto.
+  - destruct (step c s e) as [s1|] eqn:Es; [|discriminate].
+    eapply IH; [|exact H]. eapply step_within; eauto.
 Qed.
 
-(* the property's limit clause for every run that never takes an idle connection past a limit *)
-Lemma limit_partial c tr s :
-  run c init tr = Some s -> all_steps (good_step c) c init tr ->
+(* the property's limit clause, for ALL traces (since repair 755fa27 the fast-path _get is guarded by the
+   capacity, so no step takes a connection past a limit) *)
+Lemma limit_full c tr s :
+  run c init tr = Some s ->
   ((0 < limit c)%Z -> (Z.of_nat (length (acquired s)) <= limit c)%Z) /\
   ((0 < lph c)%Z -> forall k, (Z.of_nat (count_host k (hostacq s)) <= lph c)%Z).
-Proof. intros H A. exact (run_within c tr init s (within_init c) A H). Qed.
-
-(* force_close connectors never pool: the hypothesis is then automatic *)
-Definition no_idle (s : state) : Prop := idle s = [].
-
-Lemma release_acquired_idle c s sl order s' :
-  release_acquired c s sl order = Some s' -> idle s' = idle s.
-Proof.
-  unfold release_acquired, release_waiter. destruct (closed s); [intros [= <-]; reflexivity|].
-  destruct (covers order (waiters (del_slot s sl))); [|discriminate]. intros [= <-].
-  destruct (release_loop_frame c order (del_slot s sl)) as (_ & _ & I & _). exact I.
-Qed.
-
-Lemma step_no_idle c s e s' :
-  force_close c = true -> no_idle s -> step c s e = Some s' -> no_idle s'.
-Proof.
-  unfold no_idle. intros F I H.
-  destruct e as [t k|t order|t|t|t order|t cl order|]; simpl in H.
-  - destruct (get_pc (pcs s) t); try discriminate. rewrite I in H. simpl in H.
-    destruct (connect_must_wait (avail c s k)).
-    { destruct (refuse_wait s); injection H as <-; exact I. }
-    injection H as <-. unfold proceed. rewrite I. simpl. exact I.
-  - destruct (get_pc (pcs s) t) as [| k f | | | | |]; try discriminate.
-    destruct f; try discriminate.
-    + destruct (wait_slot_found _).
-      * injection H as <-. unfold proceed. simpl. rewrite I. simpl. exact I.
-      * destruct (refuse_wait _); injection H as <-; exact I.
-    + injection H as <-. exact I.
-    + destruct (release_waiter c _ order) as [s2|] eqn:Er; [|discriminate]. injection H as <-.
-      unfold release_waiter in Er. destruct (covers order _); [|discriminate]. injection Er as <-.
-      simpl. match goal with |- idle (release_loop c ?x order) = [] =>
-        destruct (release_loop_frame c order x) as (_ & _ & I' & _); rewrite I' end. exact I.
-  - destruct (get_pc (pcs s) t) as [| k f | | | | |]; try discriminate.
-    destruct f; try discriminate; injection H as <-; exact I.
-  - destruct (get_pc (pcs s) t); try discriminate. destruct (closed s); injection H as <-; exact I.
-  - destruct (get_pc (pcs s) t); try discriminate.
-    destruct (release_acquired c s (SPh t) order) as [s1|] eqn:Er; [|discriminate].
-    injection H as <-. simpl. rewrite (release_acquired_idle _ _ _ _ _ Er). exact I.
-  - destruct (get_pc (pcs s) t) as [| | | k cn | | |]; try discriminate.
-    destruct (closed s); [injection H as <-; exact I|].
-    destruct (release_acquired c s (SConn cn) order) as [s1|] eqn:Er; [|discriminate].
-    injection H as <-. rewrite F. simpl. rewrite (release_acquired_idle _ _ _ _ _ Er). exact I.
-  - destruct (closed s); injection H as <-; [exact I|reflexivity].
-Qed.
-
-Lemma force_close_good c : force_close c = true -> forall tr s,
-  no_idle s -> all_steps (good_step c) c s tr.
-Proof.
-  intros F. induction tr as [|e r IH]; intros s I; simpl; [exact Logic.I|]. split.
-  - destruct e; simpl; try exact Logic.I. left. rewrite I. reflexivity.
-  - destruct (step c s e) as [s1|] eqn:Es; [|exact Logic.I]. apply IH. eapply step_no_idle; eauto.
-Qed.
-
-Lemma limit_force_close c tr s :
-  force_close c = true -> run c init tr = Some s ->
-  ((0 < limit c)%Z -> (Z.of_nat (length (acquired s)) <= limit c)%Z) /\
-  ((0 < lph c)%Z -> forall k, (Z.of_nat (count_host k (hostacq s)) <= lph c)%Z).
-Proof.
-  intros F H. apply (limit_partial c tr s H). apply force_close_good; [exact F|reflexivity].
-Qed.
+Proof. intros H. exact (run_within c tr init s (within_init c) H). Qed.
